@@ -97,6 +97,7 @@ type frame struct {
 	ct      *contract
 	entryCond string
 	inits *initInfo
+	objTerm map[ssa.Value]baseObj // local allocations -> oid term and allocated type
 }
 
 type loopInfo struct {
@@ -148,7 +149,7 @@ func (vc *funcVC) run() (err error) {
 	if fn.Blocks == nil {
 		return fmt.Errorf("%s has no body", fn)
 	}
-	st := &state{heap: map[string]string{}, locals: map[string]string{}}
+	st := &state{heap: map[string]string{}, locals: map[string]string{}, base: map[string]heapBase{}}
 	st.alloc = c.declConst("A!0", "Int")
 	c.assume("(>= A!0 0)")
 	vc.entry = st.clone()
@@ -376,7 +377,7 @@ func (vc *funcVC) assumeG(f string) {
 func (vc *funcVC) newFrame(fn *ssa.Function, prefix string, depth int) *frame {
 	fr := &frame{vc: vc, fn: fn, prefix: prefix, depth: depth, vals: map[ssa.Value]string{}, tuples: map[ssa.Value][]string{},
 		regs: map[*ssa.Alloc]bool{}, out: map[*ssa.BasicBlock]*state{}, cond: map[*ssa.BasicBlock]string{}, loops: map[*ssa.BasicBlock]*loopInfo{},
-		debug: map[string][]*ssa.DebugRef{}}
+		debug: map[string][]*ssa.DebugRef{}, objTerm: map[ssa.Value]baseObj{}}
 	fr.findRegs()
 	fr.findLoops()
 	fr.inits = computeInitStores(fn, fr.regs)
@@ -644,6 +645,39 @@ func (fr *frame) mergeStates(conds []string, sts []*state) *state {
 		}
 		res.heap[k] = n
 	}
+	for k, b := range sts[0].base {
+		keep := true
+		objs := append([]baseObj{}, b.objs...)
+		for _, s := range sts[1:] {
+			ob, ok := s.base[k]
+			if !ok || ob.term != b.term {
+				keep = false
+				break
+			}
+			for _, o := range ob.objs {
+				found := false
+				for _, x := range objs {
+					if x.term == o.term {
+						found = true
+					}
+				}
+				if !found {
+					objs = append(objs, o)
+				}
+			}
+		}
+		if keep {
+			res.base[k] = heapBase{b.term, objs}
+		} else {
+			delete(res.base, k)
+		}
+	}
+	// a key without base in sts[0] but unchanged there and based elsewhere: keep it simple and drop
+	for k := range res.base {
+		if _, ok := sts[0].base[k]; !ok {
+			delete(res.base, k)
+		}
+	}
 	lkeys := map[string]bool{}
 	for _, s := range sts {
 		for k := range s.locals {
@@ -887,7 +921,7 @@ func (fr *frame) enterLoop(li *loopInfo, h *ssa.BasicBlock, pre *state, enter st
 	// header state: havoc what the loop body may modify
 	hst := pre.clone()
 	ms := vc.ma.region(fr.fn, li.body)
-	vc.havoc(hst, pre, ms, fmt.Sprintf("loop%d", li.ordinal), func(v ssa.Value) (string, bool) { return fr.val(v), true })
+	vc.havoc(hst, pre, ms, fmt.Sprintf("loop%d", li.ordinal), func(v ssa.Value) (string, bool) { return fr.val(v), true }, fr.objTerm)
 	// register locals assigned in the loop
 	for _, b := range fr.fn.Blocks {
 		if !li.body[b] {
@@ -1055,7 +1089,7 @@ func (fr *frame) iterKey(r *ssa.Range) string {
 }
 
 // havoc replaces what ms may write by fresh versions in st (pre is the state before), adding frame axioms.
-func (vc *funcVC) havoc(st, pre *state, ms *modset, why string, rootTerm func(ssa.Value) (string, bool)) {
+func (vc *funcVC) havoc(st, pre *state, ms *modset, why string, rootTerm func(ssa.Value) (string, bool), objTerm map[ssa.Value]baseObj) {
 	c := vc.c
 	keys := map[string]bool{}
 	for k := range ms.real {
@@ -1075,7 +1109,28 @@ func (vc *funcVC) havoc(st, pre *state, ms *modset, why string, rootTerm func(ss
 		old := c.heapGet(pre, k)
 		n := c.freshConst(k, c.heapSorts[k])
 		st.heap[k] = n
+		c.heapWF(n, c.heapSorts[k], newA)
 		sh := ms.real[k]
+		delete(st.base, k)
+		if !sh.nonObj && !sh.any && len(sh.objs) > 0 && objTerm != nil {
+			var objs []baseObj
+			ok := true
+			for o := range sh.objs {
+				t, found := objTerm[o]
+				if !found {
+					ok = false
+				}
+				objs = append(objs, t)
+			}
+			if ok {
+				sort.Slice(objs, func(i, j int) bool { return objs[i].term < objs[j].term })
+				if pb, had := pre.base[k]; had {
+					st.base[k] = heapBase{pb.term, append(append([]baseObj{}, pb.objs...), objs...)}
+				} else {
+					st.base[k] = heapBase{old, objs}
+				}
+			}
+		}
 		if sh.any {
 			continue
 		}
